@@ -370,6 +370,20 @@ Theorem C10_failing_shapes_inhabited :
 Proof. exact failing_shape_witnesses. Qed.
 Print Assumptions C10_failing_shapes_inhabited.
 
+(* two clauses that only objects can violate: a NUL in a common segment (uriCompareRange equates "a\0b"
+   and "a\0c", and the result takes the base's segment), and the host-less source whose path is the
+   single empty segment (dropped by resolution; harmless under same_target) *)
+Theorem C10_walk_ok_object_clauses_refuted :
+  (let s := obj (Some [104]) false [[97; 0; 98]; [120]] in
+   let b := obj (Some [104]) false [[97; 0; 99]; [121]] in
+   walk_ok_dotted s b = false /\ walk_ok_dotted (obj (Some [104]) false [[97; 98]; [120]]) (obj (Some [104]) false [[97; 98]; [121]]) = true
+   /\ back_path s b = [[97; 0; 99]; [120]])
+  /\ (let s := obj None true [[]] in
+      let b := obj None true [[97]] in
+      walk_ok_dotted s b = true /\ walk_ok s b = false /\ back_path s b = []).
+Proof. exact walk_ok_object_clauses. Qed.
+Print Assumptions C10_walk_ok_object_clauses_refuted.
+
 (* ---- F. the hypotheses are satisfiable ------------------------------------------------------------- *)
 (* walk_ok, the reference and the way back *)
 Example C10_ex_walk :
